@@ -295,6 +295,19 @@ fn change_gentime_digit(buf: &mut [u8]) -> Result<(), String> {
     Ok(())
 }
 
+/// Value of the signed signingTime attribute (UTCTime) of a token, unix seconds.
+fn signing_time_attr(buf: &[u8]) -> Option<i64> {
+    let oid = pki::der::oid(pki_tsa::OID_ATTR_SIGNING_TIME);
+    let pos = buf.windows(oid.len()).position(|w| w == oid.as_slice())? + oid.len();
+    // SET { UTCTime "YYMMDDHHMMSSZ" }
+    if buf.get(pos)? != &0x31 || buf.get(pos + 2)? != &0x17 || buf.get(pos + 3)? != &13 {
+        return None;
+    }
+    let s = std::str::from_utf8(buf.get(pos + 4..pos + 16)?).ok()?;
+    let dt = chrono::NaiveDateTime::parse_from_str(&format!("20{s}"), "%Y%m%d%H%M%S").ok()?;
+    Some(dt.and_utc().timestamp())
+}
+
 /// Flips one bit inside the named region of a token / response (the region is found structurally).
 fn rand_flip(buf: &mut [u8], region: u8, r: u32) -> Result<(), String> {
     let (start, len) = match region % 3 {
@@ -356,7 +369,10 @@ fn make(p: &Pki, tok: Tok, message: &[u8], other_version_message: &[u8]) -> Resu
             }
             _ => {}
         }
+        // openssl writes its own clock reading into the signed signingTime attribute (which the SDK prefers over
+        // genTime); it can differ from genTime by a second in either direction
         t.acceptable_times = vec![gt];
+        t.acceptable_times.extend(signing_time_attr(&resp));
         let token = pki_tsa::token_of_resp(&resp).ok_or("no token in reply")?;
         return Ok(Made {
             resp,
@@ -701,10 +717,11 @@ fn run_case(p: &Arc<Pki>, c: &Case, asset: &assets::Asset, with_cli_check: bool)
                     cli.reply(req).and_then(|resp| {
                         let (gt, _) = pki_tsa::locate_gen_time(&resp).ok_or("no genTime")?;
                         let token = pki_tsa::token_of_resp(&resp).ok_or("no token")?;
+                        let st_attr = signing_time_attr(&resp);
                         Ok(Made {
                             resp,
                             token,
-                            truth: Truth { imprint_ok: true, cms_ok: true, tsa_valid_at_gen: true, tsa_eku_ok: true, tsa_trusted: true, gen_time: gt, acceptable_times: vec![gt], unjudged: None },
+                            truth: Truth { imprint_ok: true, cms_ok: true, tsa_valid_at_gen: true, tsa_eku_ok: true, tsa_trusted: true, gen_time: gt, acceptable_times: [Some(gt), st_attr].into_iter().flatten().collect(), unjudged: None },
                             right_digest: (Md::Sha256, pki_tsa::digest(Md::Sha256, message)),
                             tsa_cert: p.tsa_ec.cert.der.clone(),
                             chain: vec![p.root.der.clone()],
@@ -779,7 +796,7 @@ fn main() {
         "ground truth is the generator's label (which digest was stamped, which byte was changed, which TSA certificate signed); one token per class is cross-checked with `openssl ts -verify -attime genTime`".into(),
         "the imprint of sigTst covers Sig_structure[\"CounterSignature\", protected, h'', claim] and that of sigTst2 covers Sig_structure[\"CounterSignature\", protected, h'', cbor(bstr(signature))] (C2PA 2.x §10.3.2.5)".into(),
         "'CMS signature verifies' is read as: signer certificate present, signature over the intact TSTInfo verifies, TSA certificate valid at genTime (the quantifier lists out-of-window times)".into(),
-        "TSA EKU and TSA trust are judged only for claim v2 with verify_timestamp_trust on (the SDK documents v1 time-stamps as exempt; the statement is silent on trust)".into(),
+        "the TSA's timeStamping EKU is judged only for claim v2 with verify_timestamp_trust on (the SDK documents v1 time-stamps as exempt); whether a TSA chains to a trust anchor is never judged (the statement is silent on trust): untrusted-TSA cases are generated and reported as unjudged classes/counters".into(),
         "the state of a manifest whose certificate is valid now but whose token is unusable is not judged (the statement only requires a time-stamp failure code and that the time is not used)".into(),
     ];
     match pki::openssl_cli_version() {
@@ -908,8 +925,10 @@ fn main() {
                 Some(false)
             } else if t.tsa_eku_ok && t.tsa_trusted {
                 Some(true)
+            } else if trust_applies && !t.tsa_eku_ok {
+                Some(false) // a certificate without the timeStamping EKU is not a TSA certificate (RFC 3161 2.3)
             } else if trust_applies {
-                Some(false)
+                None // untrusted TSA with time-stamp trust on: the statement conditions use of the time on imprint + CMS only
             } else if !t.tsa_eku_ok {
                 None // EKU without trust checking / v1 exemption: not decided by the statement
             } else if trust_mode {
